@@ -19,12 +19,12 @@ MANIFEST = dict(
          "8-byte length are last, so the crash states are exactly the strict prefixes of the final image (invariant DiskIsPrefix); on "
          "the bounded model the complete byte image parses back to the directory and no strict prefix does. For each of several real "
          "archives built with the streaming compressor (1-sample, multi-sample with LZ groups and a reverse-complemented contig, "
-         "raw-group-only, 60-sample multi-batch) every prefix length n in 0..len-1 is opened through Archive::open and "
+         "raw-group-only, 60-sample multi-batch, and a ~110 kB archive with a small directory whose last-byte truncation reads as a plausible directory length) every prefix length n in 0..len-1 is opened through Archive::open and "
          "Decompressor::open with panics caught and the largest single allocation recorded, plus `ragc listset/getset` on a sample "
          "of offsets; TLC validates every recorded outcome against Trace_Container, whose step for a crash state n < len admits only "
          "an error value (a container handle only if no sample is readable; never a panic or an allocation > file size + 1 MiB).",
     note="Release profile only (the dev-profile overflow panic is C18's subject). A hang would surface as a tool timeout (exit 2), never as a "
-         "verdict. Archives are real but small (0.7-5 kB); adversarial part contents that mimic a directory are outside the quantifier.",
+         "verdict. Archives are real, 0.7-5 kB plus one of ~110 kB; adversarial part contents that mimic a directory are outside the quantifier.",
     technique="TLA+ spec (Container.tla) + TLC MC of the write/crash model; exhaustive fault enumeration over all prefix lengths of real archives, outcomes validated by TLC (Trace_Container.tla)")
 
 
@@ -41,7 +41,8 @@ def build_archives(ctx, kinds_seeds, jobs=4):
         d = os.path.join(ctx.work, "in_" + name)
         C.rvh(["mk-inputs", "--kind", kind, "--seed", str(seed), "--dir", d])
         path = os.path.join(ctx.work, name + ".agc")
-        rc, out, err, _ = C.rvh(["container-create", "--dir", d, "--out", path] + (["--big"] if kind == "big" else []), check=False, timeout=1800, env=MALLOC_ENV)
+        extra = ["--big"] if kind == "big" else (["--k", "21", "--seg", "1000000"] if kind == "mid" else [])
+        rc, out, err, _ = C.rvh(["container-create", "--dir", d, "--out", path] + extra, check=False, timeout=1800, env=MALLOC_ENV)
         res = json.loads(out.strip().splitlines()[-1]) if out.strip() else {}
         if rc != 0 or res.get("result") != "ok":
             raise C.ToolError("building archive %s failed: rc=%s %s %s" % (name, rc, out[-300:], err[-300:]))
@@ -70,11 +71,11 @@ def truncate_events(ctx, a, lo, hi, tag):
     restarts = 0
     while top > lo:
         rc, out, err, _ = C.rvh(["trace-truncate", "--archive", a["path"], "--from", str(lo), "--to", str(top), "--out", evp,
-                                 "--tmp", prefix_dir(ctx)], check=False, timeout=1500)
+                                 "--tmp", prefix_dir(ctx)] + (["--compact"] if a["kind"] == "mid" else []), check=False, timeout=1500)
         if rc == 0:
             break
         done = C.read_ndjson(evp)
-        last = min([e["n"] for e in done] + [e["n"] for e in extra] + [top])
+        last = min([e.get("n", e.get("lo")) for e in done] + [e["n"] for e in extra] + [top])
         died_at = last - 1
         if rc == 77 and "HUGEALLOC" in err:
             size = int(err.split("HUGEALLOC size=")[1].split()[0])
@@ -90,7 +91,7 @@ def truncate_events(ctx, a, lo, hi, tag):
         if restarts > 40:
             break
     evs = C.read_ndjson(evp) + extra
-    return sorted(evs, key=lambda e: -e["n"])
+    return sorted(evs, key=lambda e: -e.get("n", e.get("hi", 0)))
 
 
 def run(ctx):
@@ -106,7 +107,9 @@ def run(ctx):
 
     def mc(x):
         return C.run_tlc("MC_Container", x, workdir=os.path.join(ctx.work, "mc_" + os.path.basename(x)), workers=3)
-    kinds = ["tiny", "multi", "raw", "batch60"]
+    # "mid": ~110 kB with a ~230-byte directory - the only kind where a crash state gets past the reader's first range check
+    # (file >= 256 x directory) so that part bytes are parsed as a directory; enumerated completely in compact form
+    kinds = ["tiny", "multi", "raw", "batch60", "mid"]
     seeds = [ctx.seed] if quick else [ctx.seed * 100 + i for i in range(5)]
     with ThreadPoolExecutor(max_workers=3) as ex:
         fut_arch = ex.submit(build_archives, ctx, [(k, s) for s in seeds for k in kinds], 4)
@@ -156,7 +159,7 @@ def run(ctx):
         os.remove(p)
         return a["name"], out
     cjobs = []
-    for a in archives[:4]:
+    for a in archives[:5]:
         rc, so, se, _ = C.sh([ragc, "listset", a["path"]], check=False, timeout=600)
         if rc != 0 or not so.split():
             raise C.ToolError("`ragc listset` on the complete archive %s failed: %s" % (a["name"], se[-300:]))
@@ -172,9 +175,14 @@ def run(ctx):
     cases = []
     for a in archives:
         evs = per[a["name"]]
-        ns = sorted(e["n"] for e in evs if e["ev"] == "open_prefix")
-        if ns != list(range(0, a["len"] + 1)):
-            raise C.ToolError("prefix enumeration of %s incomplete: %d of %d offsets" % (a["name"], len(ns), a["len"] + 1))
+        nset = set(e["n"] for e in evs if e["ev"] == "open_prefix")
+        nranged = 0
+        for e in evs:
+            if e["ev"] == "open_range":
+                nset.update(range(e["lo"], e["hi"] + 1))
+                nranged += e["hi"] - e["lo"] + 1
+        if nset != set(range(0, a["len"] + 1)) or len(nset) != nranged + sum(1 for e in evs if e["ev"] == "open_prefix"):
+            raise C.ToolError("prefix enumeration of %s incomplete or overlapping: %d of %d offsets" % (a["name"], len(nset), a["len"] + 1))
         full = [e for e in evs if e["ev"] == "open_prefix" and e["n"] == a["len"]][0]
         if not (full["a"] == "ok" and full["d"] == "ok" and full["samples"] == len(a["samples"]) == full["readable"]):
             raise C.ToolError("the complete archive %s does not open/extract: %s" % (a["name"], full))
@@ -191,11 +199,12 @@ def run(ctx):
         # a rejected case is an archive with at least one bad offset; count accepted offsets of accepted archives
         bad = set(r["case_id"] for r in rej)
         for cid, evs in groups[ix]:
-            n_open = sum(1 for e in evs if e["ev"] == "open_prefix")
-            ctx.evaluations += len(evs) - 1
+            n_ranged = sum(e["hi"] - e["lo"] for e in evs if e["ev"] == "open_range")      # a range record stands for hi-lo+1 opens
+            ctx.evaluations += len(evs) - 1 + n_ranged
             if cid not in bad:
-                ctx.traces += len(evs) - 1
+                ctx.traces += len(evs) - 1 + n_ranged
                 ctx.nontrivial += sum(1 for e in evs if e["ev"] == "open_prefix" and 8 <= e["n"] < e["len"])
+                ctx.nontrivial += sum(e["hi"] - max(e["lo"], 8) + 1 for e in evs if e["ev"] == "open_range" and e["hi"] >= 8)
             for e in evs:
                 if e["ev"] == "open_prefix" and e["n"] < e["len"]:
                     k = e["a"] + ":" + e["amsg"][:48]
@@ -211,7 +220,10 @@ def run(ctx):
     ctx.extra["archives"] = [{k: a[k] for k in ("name", "len")} for a in archives]
     ctx.exhaustive = True
     ctx.sample({"archive": archives[1]["name"], "event": [e for e in per[archives[1]["name"]] if e["ev"] == "open_prefix"][3]})
-    ctx.sample({"cli_event": [e for e in per[archives[0]["name"]] if e["ev"] == "cli_prefix"][:1]})
+    def gate_passing(path):
+        b = open(path, "rb").read()
+        return [n for n in range(8, len(b)) if int.from_bytes(b[n - 8:n], "little") <= n - 8]
+    ctx.extra["crash_states_whose_trailing_8_bytes_read_as_a_plausible_directory_length"] = {a["name"]: gate_passing(a["path"])[:20] for a in archives}
     ctx.rule = ("one evaluation = one (archive, prefix length n) pair opened with Archive::open AND Decompressor::open (n in 0..len, the "
                 "complete file as positive control) or one `ragc listset|getset` run on a sampled prefix; accepted = TLC matched the event "
                 "with the model's CrashOutcome; non-trivial = distinct strict prefixes with n >= 8 (a footer length can be read)")
